@@ -172,6 +172,13 @@ pub fn runs_strategy() -> impl Strategy<Value = RunsCase> {
     (any::<bool>(), prop::collection::vec(run_len(), 1..14)).prop_map(|(first_ok, runs)| RunsCase { first_ok, runs })
 }
 
+/// the same case space, addressed by the words of a fuzz input (see `crate::words`): one word per run
+pub fn runs_from_words(w: &mut crate::words::Words) -> RunsCase {
+    let h = w.next();
+    let n = w.words_left().clamp(1, 13);
+    RunsCase { first_ok: h & 1 == 1, runs: (0..n).map(|_| crate::words::draw(&run_len(), w.next())).collect() }
+}
+
 pub fn eval_runs(case: &RunsCase, stats: &mut Stats) -> Outcome {
     let mut ok = case.first_ok;
     let mut seq: Vec<(bool, u32)> = Vec::new();
@@ -215,6 +222,15 @@ pub fn notify_strategy() -> impl Strategy<Value = NotifyCase> {
         prop::collection::vec((0u8..3, 0u8..3, prop_oneof![6 => 1u32..4, 2 => prop::sample::select(vec![119u32, 120, 121, 239, 240, 241]), 1 => 1u32..300]), 1..12),
     )
         .prop_map(|(max_count, ops)| NotifyCase { max_count, ops })
+}
+
+/// one word per operation
+pub fn notify_from_words(w: &mut crate::words::Words) -> NotifyCase {
+    use crate::words::draw;
+    let max_count = draw(&prop_oneof![3 => Just(120u32), 1 => 1u32..6, 1 => 2u32..40], w.next());
+    let n = w.words_left().clamp(1, 11);
+    let op = (0u8..3, 0u8..3, prop_oneof![6 => 1u32..4, 2 => prop::sample::select(vec![119u32, 120, 121, 239, 240, 241]), 1 => 1u32..300]);
+    NotifyCase { max_count, ops: (0..n).map(|_| draw(&op, w.next())).collect() }
 }
 
 pub fn eval_notify(case: &NotifyCase, stats: &mut Stats) -> Outcome {
